@@ -431,6 +431,40 @@ fn case<S: ShiftOps>(ctx: &mut Ctx, rng: &mut ChaCha20Rng) {
                             ctx.check(!o.is_accept(), "unbounded-transcript-under-bound", "check", dj, || json!({"outcome": o.json()}));
                         }
                     }
+                    // the same through the equation path: eq = 1*u opened as unbounded, the verifier's commitment list
+                    // carries the bound label with no / a made-up degree-bound part
+                    {
+                        use ark_poly_commit::{LCTerm, LinearCombination, QuerySet, Evaluations, PolynomialCommitment};
+                        let eq = LinearCombination::new("eq", vec![(<FOf<S> as ark_ff::One>::one(), LCTerm::PolyLabel("u".to_string()))]);
+                        let mut qs: QuerySet<PtOf<S>> = QuerySet::new();
+                        qs.insert(("eq".to_string(), ("z".to_string(), z.clone())));
+                        let mut ev: Evaluations<PtOf<S>, FOf<S>> = Evaluations::new();
+                        ev.insert(("eq".to_string(), z.clone()), uv);
+                        let eqs = [eq];
+                        let mut r = crate::probe::mon_rng(11);
+                        let lp = crate::rt::attempt(|| <PcOf<S> as PolynomialCommitment<FOf<S>, POf<S>>>::open_combinations(&tx.w.ck, eqs.iter(), [&u], cu.comms.iter(), &qs, &mut tx.sponge(), cu.states.iter(), Some(&mut r)));
+                        if let Ok(lp) = lp {
+                            let shapes: Vec<(&str, Option<CommOf<S>>)> = vec![
+                                ("label-only", Some(cu.comms[0].commitment().clone())),
+                                ("identity", S::identity_shift(cu.comms[0].commitment())),
+                                ("borrowed", S::borrow_shift(cu.comms[0].commitment(), tx.c.comms[1].commitment())),
+                            ];
+                            let mut r = crate::probe::mon_rng(12);
+                            let honest = crate::rt::decide(|| <PcOf<S> as PolynomialCommitment<FOf<S>, POf<S>>>::check_combinations(&tx.w.vk, eqs.iter(), cu.comms.iter(), &qs, &ev, &lp, &mut tx.sponge(), &mut r));
+                            if honest == Out::Accept {
+                                for (how, fc) in shapes {
+                                    if let Some(fc) = fc {
+                                        let lc: LComm<S> = LabeledCommitment::new("u".into(), fc, Some(d_small));
+                                        let mut r = crate::probe::mon_rng(12);
+                                        let o = crate::rt::decide(|| <PcOf<S> as PolynomialCommitment<FOf<S>, POf<S>>>::check_combinations(&tx.w.vk, eqs.iter(), [&lc], &qs, &ev, &lp, &mut tx.sponge(), &mut r));
+                                        let mut dj = d4.clone();
+                                        dj["degree_bound_part"] = json!(how);
+                                        ctx.check(!o.is_accept(), "unbounded-transcript-under-bound", "check_combinations", dj, || json!({"outcome": o.json()}));
+                                    }
+                                }
+                            }
+                        }
+                    }
                 }
             }
         }
